@@ -21,7 +21,7 @@ import vcommon as vc
 
 warnings.filterwarnings('ignore')
 
-GEN_TARGETS = ()
+GEN_TARGETS = ('RngScope',)
 DRIVER_MAIN = 'Main/Rng.lean'
 DRIVER_TARGETS = ['CopVerif.Driver.Rng']
 ALWAYS_SEARCH = True
@@ -608,14 +608,56 @@ def compare(hist, log, steps):
     return problems, stats
 
 
-def check_history(hist, table, lean):
+def check_history(hist, table, lean, gen=None):
+    """`gen` (a list) switches the translation validation on: the same request is also executed by the step
+    function generated from the source (`rng genrun`); when its log differs from the hand model's, the real log is
+    compared against it as well and the problems are appended to `gen` as ('gen', …).  (Generated = real but
+    different from the hand model is not a translation problem: it is the bridge Gen = Model that fails, in Lean.)"""
     keys = KeyTable()
     log = execute(hist)
-    reply = lean.ask(request(hist, table, keys))
+    req = request(hist, table, keys)
+    reply = lean.ask(req)
     steps = parse_reply(reply)
+    if gen is not None:
+        greply = lean.ask(req.replace('rng run', 'rng genrun', 1))
+        if greply != reply:
+            gsteps = parse_reply(greply)
+            if gsteps is None:
+                gen.append(('gen', 'driver: ' + greply[:200]))
+            else:
+                gp, _ = compare(hist, log, gsteps)
+                gen.extend(('gen', f'{k}: {d}') for k, d in gp)
+                gen.append(('differs', None))
     if steps is None:
         return [('driver', reply[:200])], {}
     return compare(hist, log, steps)
+
+
+def real_sampler_rows():
+    """(class -> (class whose __dict__ holds the effective sample, decorated?, class whose __dict__ holds the
+    effective set_random_state)) by introspection of the imported classes."""
+    import abc
+
+    import copulas.bivariate.independence  # noqa: F401
+    from copulas.bivariate.base import Bivariate
+    from copulas.multivariate.base import Multivariate
+    from copulas.univariate.base import Univariate
+
+    def subs(c):
+        out = []
+        for s in c.__subclasses__():
+            out.append(s)
+            out += subs(s)
+        return out
+    classes = [Univariate] + [s for s in subs(Univariate) if abc.ABC not in s.__bases__]
+    classes += [Bivariate] + subs(Bivariate) + [s for s in subs(Multivariate) if 'sample' in s.__dict__]
+    table = decorator_table()
+    rows = {}
+    for c in classes:
+        def owner(name):
+            return next((k.__name__ for k in c.__mro__ if name in k.__dict__), None)
+        rows[c.__name__] = (owner('sample'), bool(table.get(c.__name__)), owner('set_random_state'))
+    return rows
 
 
 def shrink(hist, table, lean, kind, budget=60):
@@ -713,7 +755,7 @@ def run(ctx, lean):
     zoo = get_zoo()
     table = decorator_table()
     names = ['corr:decorator-table', 'corr:history-shape', 'corr:history-equalities', 'corr:history-separations',
-             'corr:draws-from-global-legacy', 'corr:dataset-shape']
+             'corr:draws-from-global-legacy', 'corr:dataset-shape', 'tv:sampler-rows', 'tv:generated-step-vs-real']
     if lean is None:
         for n in names:
             ctx.ob(n, False, 'tie', 'driver unavailable')
@@ -732,6 +774,20 @@ def run(ctx, lean):
     else:
         diff = {c: (table.get(c), as_found.get(c)) for c in set(table) | set(as_found) if table.get(c) != as_found.get(c)}
         ctx.ob(names[0], False, 'tie', f'introspected table differs from the model\'s (class: real, expected): {diff}')
+    # 1b. translation validation of the table generated from the class statements (tools/gen_rngscope.py)
+    try:
+        gen_rows = {}
+        for wd in lean.ask('rng genrows').split()[1:]:
+            c, so, decs, st, _deleg, _ctor = wd.split(':')
+            gen_rows[c] = (so, 'random_state' in decs.split('+'), st)
+        real_rows = real_sampler_rows()
+        diff = {c: (real_rows.get(c), gen_rows.get(c)) for c in set(real_rows) | set(gen_rows)
+                if real_rows.get(c) != gen_rows.get(c)}
+        ctx.count('tv:sampler-rows', len(gen_rows))
+        ctx.ob(names[6], not diff, 'tie', f'(class: introspected, generated) {diff}' if diff else
+               f'{len(gen_rows)} rows: effective sample owner, @random_state, effective set_random_state owner')
+    except Exception as e:  # noqa
+        ctx.ob(names[6], False, 'tie', f'genrows: {e!r}')
     # 2. assumption validation: every body draws from the global legacy generator
     bad = None
     for p in zoo:
@@ -756,9 +812,10 @@ def run(ctx, lean):
     max_len = 40 if ctx.tier == 'quick' else 90
     first = {}
     tot = {}
+    gen_probs = []
     for it in range(n_hist):
         hist = gen_history(rng, zoo, max_len if it % 3 else max(6, max_len // 4))
-        probs, stats = check_history(hist, table, lean)
+        probs, stats = check_history(hist, table, lean, gen=gen_probs)
         seeded_samples = {}
         for o in hist.ops:
             ctx.count('op:' + o[0])
@@ -783,6 +840,12 @@ def run(ctx, lean):
     ctx.ob(names[1], 'shape' not in first and 'driver' not in first, 'tie', first.get('shape') or first.get('driver') or 'ok')
     ctx.ob(names[2], 'equal' not in first, 'tie', first.get('equal') or 'ok')
     ctx.ob(names[3], 'separate' not in first, 'tie', first.get('separate') or 'ok')
+    gen_bad = [p for p in gen_probs if p[0] == 'gen']
+    n_differs = sum(1 for p in gen_probs if p[0] == 'differs')
+    ctx.count('tv:generated-log-differs-from-hand-model', n_differs)
+    ctx.ob(names[7], not gen_bad, 'tie', gen_bad[0][1] if gen_bad else
+           f'{n_hist} histories executed by the step function generated from the source agree with the real code '
+           f'({n_differs} of the logs differ from the hand model\'s)')
 
 
 # --------------------------------------------------------------------------------------- oracle on the real code
